@@ -317,3 +317,120 @@ fn vp_native_connect_refusals() {
     }
     println!("VP-NATIVE connect_refusals cases={}", cases);
 }
+
+// ---------------------------------------------------------------- builder features (C07): params, auth helpers, every library body kind
+fn pct_decode(s: &str) -> Vec<u8> {
+    let b = s.as_bytes(); let mut out = Vec::new(); let mut i = 0;
+    while i < b.len() {
+        match b[i] { b'+' => { out.push(b' '); i += 1; }
+            b'%' => { out.push(u8::from_str_radix(std::str::from_utf8(&b[i + 1..i + 3]).unwrap(), 16).unwrap()); i += 3; }
+            c => { out.push(c); i += 1; } }
+    }
+    out
+}
+fn query_pairs(target: &str) -> Vec<(Vec<u8>, Vec<u8>)> {
+    match target.split_once('?') { None => vec![], Some((_, q)) => q.split('&').filter(|p| !p.is_empty()).map(|p| { let (k, v) = p.split_once('=').unwrap_or((p, "")); (pct_decode(k), pct_decode(v)) }).collect() }
+}
+fn b64(data: &[u8]) -> String {
+    const T: &[u8; 64] = b"ABCDEFGHIJKLMNOPQRSTUVWXYZabcdefghijklmnopqrstuvwxyz0123456789+/";
+    let mut out = String::new();
+    for c in data.chunks(3) {
+        let n = (c[0] as u32) << 16 | (*c.get(1).unwrap_or(&0) as u32) << 8 | *c.get(2).unwrap_or(&0) as u32;
+        out.push(T[(n >> 18) as usize & 63] as char); out.push(T[(n >> 12) as usize & 63] as char);
+        out.push(if c.len() > 1 { T[(n >> 6) as usize & 63] as char } else { '=' }); out.push(if c.len() > 2 { T[n as usize & 63] as char } else { '=' });
+    }
+    out
+}
+fn wire_of<B: Body>(b: crate::RequestBuilder<B>) -> Req {
+    let mut req = b.prepare(); let url = req.url().clone();
+    set_host(&mut req.headers, &url).unwrap();
+    let mut wire = Vec::new(); req.write_request(&mut wire, &url, None).unwrap();
+    let r = decode_request(&wire);
+    assert!(r.trailing.is_empty(), "stray bytes after the request");
+    assert_eq!(header(&r, "connection"), vec![&b"close"[..]]);
+    // written a second time (redirect): identical bytes
+    let mut wire2 = Vec::new(); req.write_request(&mut wire2, &url, None).unwrap();
+    assert!(wire == wire2, "the request is not written identically the second time");
+    r
+}
+
+/// C07: methods, query parameters (param/params/query, special characters, duplicates, pre-existing query), authentication helpers,
+/// header/header_append, and every library body kind (text, bytes, file, json, json_streaming, form) with its default Content-Type
+#[test]
+fn vp_native_builder_features_roundtrip() {
+    use http::Method;
+    let mut cases = 0u64;
+    for m in [Method::GET, Method::POST, Method::PUT, Method::DELETE, Method::HEAD, Method::OPTIONS, Method::PATCH, Method::TRACE] {
+        let r = wire_of(crate::RequestBuilder::new(m.clone(), "http://h.test/x")); cases += 1;
+        assert_eq!((r.method.as_str(), r.target.as_str()), (m.as_str(), "/x"));
+        assert!(r.body.is_empty());
+    }
+    let u = "http://h.test/";
+    for (b, name) in [(crate::get(u), "GET"), (crate::post(u), "POST"), (crate::put(u), "PUT"), (crate::delete(u), "DELETE"),
+                      (crate::head(u), "HEAD"), (crate::options(u), "OPTIONS"), (crate::patch(u), "PATCH"), (crate::trace(u), "TRACE")] {
+        assert_eq!(wire_of(b).method, name); cases += 1;
+    }
+    assert!(crate::RequestBuilder::try_new(Method::CONNECT, "http://h.test/").is_err());
+    // query parameters
+    let keys = ["a", "k ey", "", "dup", "é", "x&y=z", "100%", "q?#"];
+    let vals = ["1", "v&=+%/?#é", "", " lead and trail ", "\u{1F600}", "a=b&c=d", "+", "%41"];
+    for base in ["http://h.test/p", "http://h.test/p?pre=0", "http://h.test/p?pre=0&pre=1#frag"] {
+        let pre: Vec<(Vec<u8>, Vec<u8>)> = query_pairs(&base.split('#').next().unwrap()[13..]);
+        for i in 0..keys.len() { for j in 0..vals.len() {
+            let r = wire_of(crate::get(base).param(keys[i], vals[j]).param("dup", 7).params(&[(keys[j], vals[i]), ("dup", "y")])); cases += 1;
+            let mut want = pre.clone();
+            want.push((keys[i].as_bytes().to_vec(), vals[j].as_bytes().to_vec())); want.push((b"dup".to_vec(), b"7".to_vec()));
+            want.push((keys[j].as_bytes().to_vec(), vals[i].as_bytes().to_vec())); want.push((b"dup".to_vec(), b"y".to_vec()));
+            assert!(r.target.starts_with("/p?") && !r.target.contains('#') && !r.target.contains(' '), "target {:?}", r.target);
+            assert_eq!(query_pairs(&r.target), want, "query pairs of {:?}", r.target);
+        } }
+        let r = wire_of(crate::get(base).query(&[("q", "v w"), ("r", "&")]).unwrap()); cases += 1;
+        let mut want = pre.clone(); want.push((b"q".to_vec(), b"v w".to_vec())); want.push((b"r".to_vec(), b"&".to_vec()));
+        assert_eq!(query_pairs(&r.target), want);
+    }
+    // authentication helpers
+    for user in ["u", "user name", "ü:x", ""] { for pw in [None, Some(""), Some("p:w"), Some("pässword \u{1F511}")] {
+        let r = wire_of(crate::get("http://h.test/").basic_auth(user, pw)); cases += 1;
+        let want = format!("Basic {}", b64(format!("{}:{}", user, pw.unwrap_or("")).as_bytes()));
+        assert_eq!(header(&r, "authorization"), vec![want.as_bytes()]);
+    } }
+    let r = wire_of(crate::get("http://h.test/").bearer_auth("tok.en-123")); cases += 1;
+    assert_eq!(header(&r, "authorization"), vec![&b"Bearer tok.en-123"[..]]);
+    // header / header_append
+    let r = wire_of(crate::get("http://h.test/").header("X-A", "1").header_append("x-a", "2").header("X-B", "old").header("x-b", "new").header_append("X-C", &b"\xfe\xff"[..])); cases += 1;
+    assert_eq!(header(&r, "x-a"), vec![&b"1"[..], b"2"]); assert_eq!(header(&r, "x-b"), vec![&b"new"[..]]); assert_eq!(header(&r, "x-c"), vec![&b"\xfe\xff"[..]]);
+    // library bodies
+    let bins: Vec<Vec<u8>> = vec![vec![], vec![0], (0..=255u8).collect(), b"0\r\n\r\n".to_vec(), piece(8192, 3), piece(8193, 4), piece(70000, 5)];
+    for data in &bins {
+        let r = wire_of(crate::post("http://h.test/").bytes(data.clone())); cases += 1;
+        assert!(r.body == *data); assert_eq!(header(&r, "content-type"), vec![&b"application/octet-stream"[..]]);
+        assert_eq!(header(&r, "content-length"), vec![data.len().to_string().as_bytes()]);
+        let r = wire_of(crate::post("http://h.test/").header("Content-Type", "image/png").bytes(&data[..])); cases += 1;
+        assert!(r.body == *data); assert_eq!(header(&r, "content-type"), vec![&b"image/png"[..]]);
+        let path = std::env::temp_dir().join(format!("vp_native_body_{}_{}", std::process::id(), data.len()));
+        std::fs::write(&path, data).unwrap();
+        let r = wire_of(crate::put("http://h.test/").file(std::fs::File::open(&path).unwrap())); cases += 1;
+        let _ = std::fs::remove_file(&path);
+        assert!(r.body == *data, "file body of {} bytes", data.len()); assert_eq!(header(&r, "content-length"), vec![data.len().to_string().as_bytes()]);
+        assert_eq!(header(&r, "content-type"), vec![&b"application/octet-stream"[..]]);
+    }
+    for text in ["", "plain", "héllo \u{1F600}\r\n0\r\n\r\n"] {
+        let r = wire_of(crate::post("http://h.test/").text(text)); cases += 1;
+        assert_eq!(r.body, text.as_bytes()); assert_eq!(header(&r, "content-type"), vec![&b"text/plain; charset=utf-8"[..]]);
+        let r = wire_of(crate::post("http://h.test/").text(text.to_string()).header("content-type", "text/csv")); cases += 1;
+        assert_eq!(r.body, text.as_bytes()); assert_eq!(header(&r, "content-type"), vec![&b"text/csv"[..]]);
+    }
+    let r = wire_of(crate::post("http://h.test/").json(&vec![1, 2, 3]).unwrap()); cases += 1;
+    assert_eq!(r.body, b"[1,2,3]"); assert_eq!(header(&r, "content-type"), vec![&b"application/json; charset=utf-8"[..]]); assert_eq!(header(&r, "content-length"), vec![&b"7"[..]]);
+    let big: Vec<u32> = (0..5000).collect();
+    let r = wire_of(crate::post("http://h.test/").json_streaming(big.clone())); cases += 1;
+    let want = format!("[{}]", big.iter().map(|n| n.to_string()).collect::<Vec<_>>().join(","));
+    assert!(r.body == want.as_bytes(), "streamed JSON body"); assert_eq!(header(&r, "transfer-encoding"), vec![&b"chunked"[..]]);
+    assert_eq!(header(&r, "content-type"), vec![&b"application/json; charset=utf-8"[..]]);
+    let r = wire_of(crate::post("http://h.test/").form(&[("a", "b c"), ("d", "&=é")]).unwrap()); cases += 1;
+    assert_eq!(header(&r, "content-type"), vec![&b"application/x-www-form-urlencoded"[..]]);
+    let body = String::from_utf8(r.body.clone()).unwrap();
+    assert_eq!(query_pairs(&format!("?{}", body)), vec![(b"a".to_vec(), b"b c".to_vec()), (b"d".to_vec(), "&=é".as_bytes().to_vec())]);
+    assert_eq!(header(&r, "content-length"), vec![body.len().to_string().as_bytes()]);
+    println!("VP-NATIVE builder_features_roundtrip cases={}", cases);
+}
